@@ -10,3 +10,20 @@ package keeper
 //@   flag prune
 //@   ensures[C10.up.feedistribution] isMainnet(unwrap_ctx(goCtx)) && k.Keeper.authority != old(req.Authority) ==>
 //@        err != nil && state(unwrap_ctx(goCtx)) == old(state(unwrap_ctx(goCtx)))
+
+// ---------------------------------------------------------------------------------------------
+// C17: whatever is booked to the community pool or to validators at an epoch end has been moved from the fee
+// collector to the distribution account first, in the same call, exactly once: every write of the fee pool and
+// every per-validator allocation is preceded on its path by exactly one module-to-module transfer (ghost event 51)
+// of the whole fee-collector balance into the distribution module.
+//@ define atMoved() = traceN() == old(traceN()) + 1 && traceAt(old(traceN())) == mkEv(51, g("x/feedistribution/types.ModuleName"), 0)
+//@ func (Keeper).AllocateTokens
+//@   flag havoc=AllocateTokensToValidator
+//@   modifies state(ctx), trace, heap["x/feedistribution/types.FeePool"]
+//@   before[C17.at.whole]  SendCoinsFromModuleToModule requires arg_amt == res_GetAllBalances_0 && arg_senderModule == k.feeCollectorName &&
+//@        arg_recipientModule == g("x/feedistribution/types.ModuleName") && traceN() == old(traceN())
+//@   before[C17.at.moved]  SetFeePool requires atMoved()
+//@   before[C17.at.moved]  AllocateTokensToValidator requires atMoved()
+//@   ensures[C17.at.once]  err == nil ==> atMoved()
+//@ loop #1
+//@   invariant atMoved()
